@@ -1291,6 +1291,8 @@ def fail_events(model: TopoModel):
                 for svc_name, port_name in sorted(spn)[:1]:
                     ev.append(('fail', 'link-over-service-port', svc_name, port_name, model._pref(free[0])))
                     ev.append(('fail', 'type-from-service-port', svc_name, port_name))
+                    # ... nor by moving between the two kinds of port that never stand alone
+                    ev.append(('fail', 'type-service-port-to-sub-interface', svc_name, port_name))
         ev.append(('fail', 'node-duplicate-name', n0))
         ev.append(('fail', 'rename-bad-name', n0))
         ev.append(('fail', 'node-duplicate-id', nodes[n0].node_id))
@@ -1362,6 +1364,7 @@ def fail_events(model: TopoModel):
                 subs = list(i.interface_list)
                 if subs:
                     ev.append(('fail', 'sub-duplicate-name', (nn, i.name), subs[0].name))
+                    ev.append(('fail', 'type-sub-interface-to-service-port', (nn, i.name), subs[0].name))
                     vl = subs[0].labels.vlan if subs[0].labels else None
                     if vl:
                         ev.append(('fail', 'sub-duplicate-vlan', (nn, i.name), vl))
@@ -1601,6 +1604,12 @@ def _do_fail(model: TopoModel, ev):
         if p_.type == InterfaceType.SubInterface:
             raise _Skip()
         p_.set_property('type', InterfaceType.SubInterface)
+    elif kind == 'type-service-port-to-sub-interface':
+        sp = [i for i in model.service(ev[2]).interface_list if i.name == ev[3]][0]
+        sp.set_property('type', InterfaceType.SubInterface)
+    elif kind == 'type-sub-interface-to-service-port':
+        sub = [i for i in model.port(*ev[2]).interface_list if i.name == ev[3]][0]
+        sub.set_properties(type=InterfaceType.ServicePort)
     elif kind == 'type-from-service-port':
         sp = [i for i in model.service(ev[2]).interface_list if i.name == ev[3]][0]
         sp.set_properties(type=InterfaceType.TrunkPort)
@@ -1705,6 +1714,7 @@ GUARD_PROBES = {'node-duplicate-name', 'node-duplicate-id', 'facility-duplicate-
                 'storage-duplicate-name', 'sub-duplicate-name', 'sub-duplicate-vlan', 'peer-twice', 'link-duplicate-name',
                 'facility-duplicate-interface-names', 'type-outside-vocabulary', 'type-of-another-kind', 'link-non-interface', 'link-same-interface-twice',
                 'link-over-service-port', 'service-interfaces-not-a-list', 'type-to-service-port', 'type-from-service-port', 'type-to-sub-interface',
+                'type-service-port-to-sub-interface', 'type-sub-interface-to-service-port',
                 'sub-duplicate-via-second-handle', 'sub-service-interface-twice-one-handle'}
 
 
